@@ -77,12 +77,12 @@ static void union_case() {
     V_ASSERT(needs_arena, "spans: the arena is asked only when the destination is too small");
     V_ASSERT(err == Error::kOutOfMemory, "spans: arena failure is reported as out of memory");
     V_ASSERT(out._data._size == old_size && out._data._capacity == (DST == 0 ? 0u : DST == 1 ? 6u : 2u), "spans: destination untouched when the arena fails");
-    V_WITNESS("union-oom");
+    if (needs_arena) V_WITNESS("union-oom");
     return;
   }
   V_ASSERT(err == Error::kOk || err == Error::kByPass, "spans: union returns ok or bypass when memory is there");
   V_ASSERT((err == Error::kByPass) == hit, "spans: overlap is reported iff some span of x intersects some span of y");
-  if (err != Error::kOk) { V_WITNESS("union-refused"); return; }
+  if (err != Error::kOk) { if (NX && NY) V_WITNESS("union-refused"); return; }
 
   const unsigned N = NX + NY;
   V_ASSERT(out.size() == N, "spans: the union holds as many spans as both inputs");
